@@ -53,7 +53,7 @@ def run_demo(wt, src):
     bs = (dst / "build.sh").read_text()
     import re
     bs = re.sub(r"OUT/\d+/", "OUT/1/", bs)
-    bs = re.sub(r"/tmp/mut/C\d+", str(wt), bs)
+    bs = re.sub(r"/tmp/mut/\w+", str(wt), bs)
     (dst / "build.sh").write_text(bs)
     rc, out = sh("sh OUT/1/build.sh", cwd=wt)
     if rc != 0:
